@@ -98,7 +98,11 @@ type lockFlow struct {
 	nLocks   int
 }
 
-func analyzeLocks(fn *ssa.Function) *lockFlow {
+func analyzeLocks(fn *ssa.Function) *lockFlow { return analyzeLocksFrom(fn, nil, nil) }
+
+// analyzeLocksFrom: like analyzeLocks, with locks already held / deferred unlocks already registered by every caller
+// (a local helper closure that is only called from critical sections).
+func analyzeLocksFrom(fn *ssa.Function, held0, def0 lockSet) *lockFlow {
 	lf := &lockFlow{fn: fn, held: map[ssa.Instruction]lockSet{}, deferred: map[ssa.Instruction]lockSet{}}
 	type st struct{ held, def lockSet }
 	in := make([]*st, len(fn.Blocks))
@@ -106,6 +110,12 @@ func analyzeLocks(fn *ssa.Function) *lockFlow {
 		return lf
 	}
 	in[0] = &st{lockSet{}, lockSet{}}
+	for k := range held0 {
+		in[0].held[k] = true
+	}
+	for k := range def0 {
+		in[0].def[k] = true
+	}
 	work := []int{0}
 	step := func(b *ssa.BasicBlock, s *st, record bool) *st {
 		cur := &st{s.held.clone(), s.def.clone()}
@@ -222,8 +232,9 @@ func LockClosures(c *core.Ctx, rule string, fns []*ssa.Function, floor int) {
 				}
 			}
 		}
+		entryHeld, entryDef := helperEntryStates(top, lits)
 		for _, l := range lits {
-			lf := analyzeLocks(l)
+			lf := analyzeLocksFrom(l, entryHeld[l], entryDef[l])
 			name := fnName(l)
 			bad := false
 			nAcc := 0
@@ -302,9 +313,10 @@ func PanicSafeLock(c *core.Ctx, rule string, fns []*ssa.Function, floor int) {
 		for _, a := range top.AnonFuncs {
 			collectLiterals(a, &lits)
 		}
+		entryHeld, entryDef := helperEntryStates(top, lits)
 		for _, l := range lits {
-			lf := analyzeLocks(l)
-			if lf.nLocks == 0 {
+			lf := analyzeLocksFrom(l, entryHeld[l], entryDef[l])
+			if lf.nLocks == 0 && len(entryHeld[l]) == 0 {
 				continue
 			}
 			name := fnName(l)
@@ -346,4 +358,118 @@ func PanicSafeLock(c *core.Ctx, rule string, fns []*ssa.Function, floor int) {
 		}
 	}
 	c.Floor(rule, "risky calls inside critical sections", n, floor)
+}
+
+// helperEntryStates: for the literals of top that are local helper closures — bound to a local variable and used only
+// as the callee of calls made from sibling literals — the locks that every call site holds and the deferred unlocks
+// every call site has registered. Such a helper runs inside its callers' critical sections.
+func helperEntryStates(top *ssa.Function, lits []*ssa.Function) (map[*ssa.Function]lockSet, map[*ssa.Function]lockSet) {
+	// closure creation sites in top: alloc cell (or direct value) -> function
+	cellFn := map[ssa.Value]*ssa.Function{}
+	for _, b := range top.Blocks {
+		for _, ins := range b.Instrs {
+			if st, ok := ins.(*ssa.Store); ok {
+				if mc, ok := st.Val.(*ssa.MakeClosure); ok {
+					if f, ok := mc.Fn.(*ssa.Function); ok {
+						if _, dup := cellFn[st.Addr]; dup {
+							cellFn[st.Addr] = nil // assigned twice: not a fixed helper
+						} else {
+							cellFn[st.Addr] = f
+						}
+					}
+				}
+			}
+		}
+	}
+	// binding of each literal's free variables to cells of top
+	bindOf := map[*ssa.Function][]ssa.Value{}
+	var scan func(fn *ssa.Function)
+	scan = func(fn *ssa.Function) {
+		for _, b := range fn.Blocks {
+			for _, ins := range b.Instrs {
+				if mc, ok := ins.(*ssa.MakeClosure); ok {
+					if f, ok := mc.Fn.(*ssa.Function); ok {
+						bindOf[f] = mc.Bindings
+					}
+				}
+			}
+		}
+		for _, a := range fn.AnonFuncs {
+			scan(a)
+		}
+	}
+	scan(top)
+	// resolve a value inside literal l to the cell of top it denotes
+	var cellOf func(l *ssa.Function, v ssa.Value) ssa.Value
+	cellOf = func(l *ssa.Function, v ssa.Value) ssa.Value {
+		fv, ok := v.(*ssa.FreeVar)
+		if !ok {
+			return v
+		}
+		for i, f := range l.FreeVars {
+			if f == fv && i < len(bindOf[l]) {
+				if l.Parent() != nil && l.Parent() != top {
+					return cellOf(l.Parent(), bindOf[l][i])
+				}
+				return bindOf[l][i]
+			}
+		}
+		return nil
+	}
+	type site struct {
+		held, def lockSet
+	}
+	sites := map[*ssa.Function][]site{}
+	escapes := map[*ssa.Function]bool{}
+	flows := map[*ssa.Function]*lockFlow{}
+	for _, l := range lits {
+		flows[l] = analyzeLocks(l)
+	}
+	for _, l := range lits {
+		for _, b := range l.Blocks {
+			for _, ins := range b.Instrs {
+				// loads of a helper cell: used as callee, or escaping
+				u, ok := ins.(*ssa.UnOp)
+				if !ok {
+					continue
+				}
+				cell := cellOf(l, u.X)
+				h := cellFn[cell]
+				if cell == nil || h == nil {
+					continue
+				}
+				if refs := u.Referrers(); refs != nil {
+					for _, r := range *refs {
+						if call, ok := r.(*ssa.Call); ok && call.Call.Value == ssa.Value(u) {
+							sites[h] = append(sites[h], site{flows[l].held[call], flows[l].deferred[call]})
+						} else {
+							escapes[h] = true
+						}
+					}
+				}
+			}
+		}
+	}
+	// uses in top itself (passed to MakeIterator etc.) are escapes
+	for _, b := range top.Blocks {
+		for _, ins := range b.Instrs {
+			if u, ok := ins.(*ssa.UnOp); ok {
+				if h := cellFn[u.X]; h != nil {
+					escapes[h] = true
+				}
+			}
+		}
+	}
+	heldAt, defAt := map[*ssa.Function]lockSet{}, map[*ssa.Function]lockSet{}
+	for h, ss := range sites {
+		if escapes[h] || len(ss) == 0 {
+			continue
+		}
+		hs, ds := ss[0].held.clone(), ss[0].def.clone()
+		for _, x := range ss[1:] {
+			hs, ds = intersect(hs, x.held), intersect(ds, x.def)
+		}
+		heldAt[h], defAt[h] = hs, ds
+	}
+	return heldAt, defAt
 }
